@@ -76,6 +76,29 @@ def wiring_table(ctx):
         else:
             ts = b.get('tag_semaphores')
             ctx.ob(f, f'{attr} has no tag semaphores', ts is None, 'only the request stage is governed by in-memory tags', trivial=True)
+    # the two tags are different keys: with value-compared tags (namedtuple) equal constructor arguments collapse the two
+    # entries of the dict into one and one of the two limits silently governs both kinds of task
+    fm = ctx.p.modules['futures']
+    tv = {t: fm.consts.get(t) for t in ('IN_MEMORY_UPLOAD_TAG', 'IN_MEMORY_DOWNLOAD_TAG')}
+    ctx.need(all(v is not None for v in tv.values()), 'tag constants vanished from futures.py')
+    a, b2 = tv['IN_MEMORY_UPLOAD_TAG'], tv['IN_MEMORY_DOWNLOAD_TAG']
+
+    def _value_compared(v):
+        if isinstance(v, (ast.Constant, ast.Tuple)):
+            return True
+        if isinstance(v, ast.Call) and isinstance(v.func, ast.Name):
+            d = fm.consts.get(v.func.id)
+            if isinstance(d, ast.Call) and (dotted(d.func) or '').split('.')[-1] in ('namedtuple', 'NamedTuple'):
+                return True
+            cl = next(iter(ctx.p.classes_by_name.get(v.func.id, [])), None)
+            if cl is not None:
+                return '__eq__' in cl.methods or any(norm(x) in ('NamedTuple', 'typing.NamedTuple', 'tuple', 'str') for x in cl.node.bases) \
+                    or any('dataclass' in norm(x) for x in cl.node.decorator_list)
+            return d is None and cl is None   # unknown constructor: assume the worst
+        return False
+    same = norm(a) == norm(b2) and _value_compared(a)
+    ctx.ob('futures.<module>', 'IN_MEMORY_UPLOAD_TAG != IN_MEMORY_DOWNLOAD_TAG', not same and not (isinstance(b2, ast.Name) and b2.id == 'IN_MEMORY_UPLOAD_TAG') and not (isinstance(a, ast.Name) and a.id == 'IN_MEMORY_DOWNLOAD_TAG'),
+           f'both tags are {norm(a)}: they compare equal, the tag_semaphores dict keeps one entry, and one in-memory limit governs both uploads and downloads', node=b2)
     # self._config is the given config or the defaults
     defs = [norm(v) for fn, v in ctx.cls('manager.TransferManager').init_attrs.get('_config', []) if fn is f]
     ctx.ob(f, 'self._config = config or TransferConfig()', set(defs) <= {'config', 'TransferConfig()'} and 'config' in defs, f'found {defs}')
